@@ -35,6 +35,20 @@ import (
 //	absent / null params -> either outcome; if called, with all zero values
 //	refuse = not called, InvalidParams. Result and error are passed through.
 //
+// Names "" and "-" (a parameter that cannot be addressed by key; nothing in the
+// documentation forbids them and Positional accepts them): the array-length
+// clause does not depend on how the names are spelled, so
+//
+//	array of a length other than n                 -> refuse
+//	object using only the other (addressable) names -> call, unaddressable arguments zero
+//	array of exactly n elements, or an object with a key "" / "-" that is one
+//	of the names -> either outcome (the unchanged library refuses both; the
+//	               statement read literally wants a call); if called, with the
+//	               values the positional reading gives
+//
+// A handler keeps the AllowArray setting in force when Wrap returned it, whatever
+// is done to the FuncInfo afterwards (shared-FuncInfo variants).
+//
 // Args: json.Unmarshal / Request.UnmarshalParams into Args{t1..tn} succeeds iff
 // the text is an array of exactly n elements and element i decodes into ti
 // (nil ti skipped); then every target equals what encoding/json makes of its
@@ -102,6 +116,8 @@ type c16want struct {
 	rawExact bool
 	why      string
 	nested   bool // accepted or refused only because of a nested unknown key
+	unaddr   bool // n-element array for, or object key among, names "" / "-"
+	badLen   bool // refused for the array length alone
 	array    bool
 }
 
@@ -154,7 +170,13 @@ func c16oracle(types []reflect.Type, names []string, allowArray bool, params str
 		w.v = c15either
 		return done()
 	}
-	strictFail := false
+	strictFail, unaddressable := false, false
+	hasUnaddressable := false
+	for _, nm := range names {
+		if c16unaddressable(nm) {
+			hasUnaddressable = true
+		}
+	}
 	one := func(i int, raw []byte) error {
 		if err := c16into(plain[i], raw, false); err != nil {
 			return err
@@ -174,6 +196,7 @@ func c16oracle(types []reflect.Type, names []string, allowArray bool, params str
 			panic("c16oracle: invalid array " + params)
 		}
 		if len(arr) != n {
+			w.badLen = true
 			return refuse(fmt.Sprintf("array of %d for %d arguments", len(arr), n))
 		}
 		w.rawExact, w.array = false, true
@@ -182,6 +205,7 @@ func c16oracle(types []reflect.Type, names []string, allowArray bool, params str
 				return refuse(fmt.Sprintf("element %d: %v", i, err))
 			}
 		}
+		unaddressable = hasUnaddressable
 	case '{':
 		keys, vals := c16pairs(params)
 		for j, k := range keys {
@@ -194,6 +218,9 @@ func c16oracle(types []reflect.Type, names []string, allowArray bool, params str
 			if idx < 0 {
 				return refuse(fmt.Sprintf("unknown name %q", k))
 			}
+			if c16unaddressable(k) {
+				unaddressable = true
+			}
 			if err := one(idx, vals[j]); err != nil {
 				return refuse(fmt.Sprintf("name %q: %v", k, err))
 			}
@@ -204,13 +231,20 @@ func c16oracle(types []reflect.Type, names []string, allowArray bool, params str
 	if strictFail {
 		w.v, w.nested = c15either, true
 	}
+	if unaddressable {
+		w.v, w.unaddr = c15either, true
+	}
 	return done()
 }
+
+// c16unaddressable: names for which Positional documents no object key.
+func c16unaddressable(name string) bool { return name == "" || name == "-" }
 
 // ---- one positional evaluation ---------------------------------------------------
 
 type c16stats struct {
 	called, refused, either, nestedEither, arrayCalls, objectCalls int
+	unaddrShort, unaddrObjCalls, sharedCalls                       int
 }
 
 func (st *c16stats) flush(c *vt.Ctx) {
@@ -220,6 +254,9 @@ func (st *c16stats) flush(c *vt.Ctx) {
 	c.Count("nested_unknown_key_cases", st.nestedEither)
 	c.Count("array_form_calls", st.arrayCalls)
 	c.Count("object_form_calls", st.objectCalls)
+	c.Count("unaddressable_names_wrong_length_refusals", st.unaddrShort)
+	c.Count("unaddressable_names_object_calls", st.unaddrObjCalls)
+	c.Count("calls_after_funcinfo_changed", st.sharedCalls)
 }
 
 func c16eval(c *vt.Ctx, s *c16sig, optName string, h jrpc2.Handler, params string, w c16want, k int, errMode bool, st *c16stats) (ok bool) {
@@ -381,6 +418,61 @@ func c16params(types []reflect.Type, names []string, r *rand.Rand) []string {
 	if b, ok := c15bad(types[i], r); ok {
 		out = append(out, c15obj(c15kv(names[i], b), c15kv(names[i], c15good(types[i], r, 1))))
 	}
+	// wrong-length arrays that would fit if positions were dropped, repeated or
+	// padded: all-null arrays of every length (null fits every type), arrays
+	// good for every subsequence with one position left out, a seeded shorter
+	// subsequence, and the full list with one position doubled
+	for l := 0; l <= n+2; l++ {
+		if l != n {
+			out = append(out, "["+strings.TrimSuffix(strings.Repeat("null,", l), ",")+"]")
+		}
+	}
+	sub := func(keep func(i int) int) string { // keep: how many copies of position i
+		var ps []string
+		for i, t := range types {
+			for j := keep(i); j > 0; j-- {
+				ps = append(ps, c15good(t, r, 1))
+			}
+		}
+		return "[" + strings.Join(ps, ",") + "]"
+	}
+	for drop := 0; drop < n; drop++ {
+		out = append(out, sub(func(i int) int { return btoi(i != drop) }))
+		out = append(out, sub(func(i int) int { return 1 + btoi(i == drop) }))
+	}
+	if n > 2 {
+		mask := r.IntN(1 << n)
+		out = append(out, sub(func(i int) int { return mask >> i & 1 }))
+	}
+	// numbers that are more than their float64 value, at every position that
+	// has a numeric leaf (all of them for n = 1, a seeded choice otherwise)
+	nums := c15numTexts(r)
+	for i, t := range types {
+		for _, num := range nums {
+			v, ok := c15numInto(t, num, 1)
+			if !ok {
+				continue
+			}
+			if n == 1 || r.IntN(2+2*n) == 0 {
+				out = append(out, arr(n, i, v))
+			}
+			if r.IntN(12) == 0 {
+				out = append(out, c15obj(c15kv(names[i], v)))
+			}
+		}
+	}
+	return out
+}
+
+// c16namesUnaddressable returns n names of which the positions in mask are ""
+// or "-" (seeded spelling) and the others distinct tag-safe names.
+func c16namesUnaddressable(n, mask int, r *rand.Rand) []string {
+	out := c16names(n, r)
+	for i := range out {
+		if mask>>i&1 != 0 {
+			out[i] = []string{"", "-"}[r.IntN(2)]
+		}
+	}
 	return out
 }
 
@@ -406,33 +498,65 @@ func c16outs(k int) []reflect.Type {
 
 // c16runSig evaluates one positional signature under both array settings.
 func c16runSig(c *vt.Ctx, types []reflect.Type, k int, r *rand.Rand, st *c16stats) bool {
-	names := c16names(len(types), r)
+	return c16runSigNames(c, types, c16names(len(types), r), k, r, st)
+}
+
+// c16variant is one handler under test with the array setting it was built with.
+type c16variant struct {
+	name   string
+	array  bool
+	h      jrpc2.Handler
+	before func() // run before the handler is used (changes the shared FuncInfo)
+	shared bool
+}
+
+func c16runSigNames(c *vt.Ctx, types []reflect.Type, names []string, k int, r *rand.Rand, st *c16stats) bool {
 	s := c16makeSig(types, names, c16outs(k))
 	params := c16params(types, names, r)
-	for oi, optName := range []string{"array-default", "AllowArray(false)"} {
-		var h jrpc2.Handler
-		if err := func() (err error) {
-			defer func() {
-				if p := recover(); p != nil {
-					err = fmt.Errorf("panic: %v", p)
-				}
-			}()
-			if oi == 0 {
-				h = handler.NewPos(s.fn, names...)
-				return nil
+	hasUnaddr := false
+	for _, nm := range names {
+		hasUnaddr = hasUnaddr || c16unaddressable(nm)
+	}
+	var variants []c16variant
+	if err := func() (err error) {
+		defer func() {
+			if p := recover(); p != nil {
+				err = fmt.Errorf("panic: %v", p)
 			}
+		}()
+		variants = append(variants, c16variant{name: "array-default", array: true, h: handler.NewPos(s.fn, names...)})
+		fi, err := handler.Positional(s.fn, names...)
+		if err != nil {
+			return err
+		}
+		variants = append(variants, c16variant{name: "AllowArray(false)", h: fi.AllowArray(false).Wrap()})
+		if k%2 == 0 {
+			// three handlers out of one FuncInfo; each is used only after the
+			// FuncInfo has been given the opposite setting
 			fi, err := handler.Positional(s.fn, names...)
 			if err != nil {
 				return err
 			}
-			h = fi.AllowArray(false).Wrap()
-			return nil
-		}(); err != nil {
-			c.Failf("%s: a documented positional signature was refused: %v", s.name, err)
-			return false
+			h1 := fi.Wrap()
+			h2 := fi.AllowArray(false).Wrap()
+			h3 := fi.AllowArray(true).Wrap()
+			variants = append(variants,
+				c16variant{name: "shared FuncInfo: Wrap (default), afterwards AllowArray(false)", array: true, h: h1, shared: true, before: func() { fi.AllowArray(false) }},
+				c16variant{name: "shared FuncInfo: AllowArray(false).Wrap, afterwards AllowArray(true)", array: false, h: h2, shared: true, before: func() { fi.AllowArray(true) }},
+				c16variant{name: "shared FuncInfo: AllowArray(true).Wrap, afterwards AllowArray(false)", array: true, h: h3, shared: true, before: func() { fi.AllowArray(false) }})
+		}
+		return nil
+	}(); err != nil {
+		c.Failf("%s: a documented positional signature was refused: %v", s.name, err)
+		return false
+	}
+	for _, v := range variants {
+		optName, h := v.name, v.h
+		if v.before != nil {
+			v.before()
 		}
 		for pi, p := range params {
-			w := c16oracle(types, names, oi == 0, p)
+			w := c16oracle(types, names, v.array, p)
 			modes := []bool{false}
 			if s.res.reportsErr && pi%4 == 0 {
 				modes = []bool{false, true}
@@ -441,6 +565,15 @@ func c16runSig(c *vt.Ctx, types []reflect.Type, k int, r *rand.Rand, st *c16stat
 				if !c16eval(c, s, optName, h, p, w, k*1000+pi, em, st) {
 					return false
 				}
+				if v.shared {
+					st.sharedCalls++
+				}
+			}
+			if hasUnaddr && w.badLen {
+				st.unaddrShort++
+			}
+			if hasUnaddr && w.v == c15call && c15first([]byte(p)) == '{' {
+				st.unaddrObjCalls++
 			}
 			if p != "" && p != "null" {
 				c.Distinct("P|" + s.name + "|" + optName + "|" + p)
@@ -985,7 +1118,10 @@ func init() {
 		Level: "exploration",
 		Rule: "Positional: every signature func(ctx,X1..Xn) with n<=2 over 11 argument kinds {int,string,bool,float64,[]int,map,struct,*struct,*int,any,json.RawMessage}, " +
 			"seeded signatures with n=3..6 over 18 kinds, each with seeded distinct tag-safe names and result shapes error | Y | (Y,error), built by reflect.MakeFunc so the arguments are captured, " +
-			"x {NewPos default, Positional+AllowArray(false)} x params: absent, null, arrays of every length 0..n+2, per-position wrong type / null / nested unknown key, all-null, " +
+			"and (U) name lists in which a set of positions is named \"\" or \"-\" (every non-empty set for n<=3, seeded sets for n=4..6, including all positions; all-int and seeded argument kinds), " +
+			"x {NewPos default, Positional+AllowArray(false); for every second signature also three handlers wrapped from ONE FuncInfo (default, AllowArray(false), AllowArray(true)), each used only after the FuncInfo was given the opposite setting} " +
+			"x params: absent, null, arrays of every length 0..n+2, all-null arrays of every length, arrays fitting the argument list with one position left out / doubled / a seeded subsequence, per-position wrong type / null / nested unknown key, " +
+			"per-position number texts that are more than their float64 value (beyond 2^53, integer-width limits, 2.0 / 1e3 / -0 spellings; array and object form), " +
 			"objects with every subset of the names (<=64), subsets plus an unknown key, per-name wrong type / null, duplicate keys, non-array non-object values; " +
 			"Positional/NewPos acceptance over arities 1..6 x {n-1,n,n+1 names} x result grammar x variadic, and non-function values. " +
 			"Args: seeded target lists (arity 0..6, nil slots, targets pre-filled with sentinels) x arrays of every length 0..n+2, per-position wrong type / null, non-arrays, via json.Unmarshal and Request.UnmarshalParams; encoding vs element-wise json.Marshal. " +
@@ -994,7 +1130,9 @@ func init() {
 			"distinct_nontrivial = distinct (signature or target list, names, option, text) with present params/text; for Args/Obj only successful decodes are counted",
 		Assumptions: []string{
 			"Go 1.26.8 encoding/json and reflect are the trusted base of the oracle",
-			"names are distinct, non-empty, not \"-\" and free of comma, quote and backslash (anything else cannot be expressed in a struct tag); object keys are exactly one of the names or differ from all of them under case folding (encoding/json matches keys case-insensitively)",
+			"names are free of comma, quote and backslash (anything else cannot be expressed in a struct tag) and, apart from \"\" and \"-\", distinct; object keys are exactly one of the names or differ from all of them under case folding (encoding/json matches keys case-insensitively)",
+			"names \"\" and \"-\" (Positional accepts them; the parameter then has no object key): an array of any length other than n must be refused and an object using only the other names must lead to a call with the unaddressable arguments zero; an array of exactly n elements and an object using \"\" / \"-\" as a key may be refused or accepted (the unchanged library refuses both), if accepted the function must get the positionally decoded values",
+			"a handler keeps the AllowArray setting in force when Wrap returned it; the FuncInfo is not modified while a handler built from it is running",
 			"absent / null params for a positional handler may be refused or answered by a call with all-zero arguments (the statement quantifies over arrays and objects)",
 			"an unknown key nested inside an argument may be refused or ignored (DisallowUnknownFields is recursive; the statement speaks of top-level names only)",
 			"json.RawMessage arguments that arrived in array form are compared as JSON values, elsewhere byte for byte",
@@ -1004,6 +1142,7 @@ func init() {
 			"functions_called": 3000, "rejected_invalid_params": 3000, "array_form_calls": 500, "object_form_calls": 1000,
 			"positional_rejections": 100, "args_decoded": 500, "args_decode_errors": 500, "args_encoded": 100,
 			"obj_decoded": 500, "obj_decode_errors": 200, "obj_untouched_targets_checked": 1000, "nested_unknown_key_cases": 50,
+			"unaddressable_names_wrong_length_refusals": 2000, "unaddressable_names_object_calls": 300, "calls_after_funcinfo_changed": 20000,
 		},
 		Cases: c16cases,
 	})
@@ -1052,6 +1191,51 @@ func c16cases(e vt.Env, yield func(vt.Case) bool) {
 					types[i] = ks[r.IntN(len(ks))]
 				}
 				if !c16runSig(c, types, bi*8+j, r, &st) {
+					return
+				}
+			}
+		}}) {
+			return
+		}
+	}
+	// U: name lists containing "" and "-". Arities 1..3: every non-empty set of
+	// unaddressable positions; arities 4..6: seeded sets.
+	ub := e.Pick(40, 1000)
+	for bi := 0; bi < ub; bi++ {
+		bi := bi
+		id := fmt.Sprintf("U/%d", bi)
+		if !yield(vt.Case{ID: id, Run: func(c *vt.Ctx) {
+			r := e.Rand(id)
+			ks := c16allKinds()
+			var st c16stats
+			defer st.flush(c)
+			mk := func(n int) []reflect.Type {
+				types := make([]reflect.Type, n)
+				for i := range types {
+					if bi%4 == 0 {
+						types[i] = c16kinds[0] // all int: every shifted assignment type-checks
+					} else {
+						types[i] = ks[r.IntN(len(ks))]
+					}
+				}
+				return types
+			}
+			j := 0
+			for n := 1; n <= 3; n++ {
+				for mask := 1; mask < 1<<n; mask++ {
+					if (mask+bi)%2 == 0 && n == 3 {
+						continue // half of the n=3 masks per block
+					}
+					j++
+					if !c16runSigNames(c, mk(n), c16namesUnaddressable(n, mask, r), bi*16+j, r, &st) {
+						return
+					}
+				}
+			}
+			for n := 4; n <= 6; n++ {
+				j++
+				mask := 1 + r.IntN(1<<n-1)
+				if !c16runSigNames(c, mk(n), c16namesUnaddressable(n, mask, r), bi*16+j, r, &st) {
 					return
 				}
 			}
